@@ -31,7 +31,7 @@ ASSUMPTIONS = [
 
 NONEXEC_MODES = [0o644, 0o600, 0o664, 0o666, 0o640, 0o604, 0o654, 0o645, 0o444]
 EXEC_MODES = [0o755, 0o700, 0o775, 0o777, 0o750, 0o744, 0o711, 0o500, 0o755]
-SDE_VALUES: list[str | None] = [None, None, None, "0", "315532799", "315532800", "1727740800", "x", "", " 1700000000 ", "1_700_000_000", "-5"]
+SDE_VALUES: list[str | None] = [None, None, None, "0", "315532799", "315532800", "1727740801", "x", "", " 1700000000 ", "1_700_000_000", "-5"]
 US = "\x1f"
 
 
@@ -220,7 +220,7 @@ def compare_model(ctx: core.Ctx, sig: Any, b: bc.Built, d: bc.WheelDesc, replies
         dis += 1
         ctx.disagree("plan-record", sig, d.record_text[-200:], plan[3][-200:])
     dts = {",".join(map(str, m["date_time"])) for m in d.members}
-    if dts != {plan[1]}:
+    if dts != {",".join(map(str, bc.zip_dos_time(plan[1].split(","))))}:   # zip stores seconds with 2 s resolution
         dis += 1
         ctx.disagree("date-time", sig, sorted(dts), plan[1])
     if plan[2] != "1":
